@@ -91,6 +91,11 @@ bool SchemaValidator::checkContent (XMLElementDecl* const elemDecl
     fErrorOccurred = false;
     fElemIsSpecified = false;
 
+    // the member type that validated the content of a union-typed element
+    // is that of THIS element, not what an earlier validation left behind
+    // (an element that is nil, or whose content is not valid, has none)
+    getScanner()->getValidationContext()->setValidatingMemberType(0);
+
     //
     //  Look up the element id in our element decl pool. This will get us
     //  the element decl in our own way of looking at them.
